@@ -56,6 +56,10 @@ def input_trees(r):
     # --fsync with far more block jobs queued than the pool's queue holds (finalisation work competing for the same pool)
     out["many-files-fsync"] = (many, ["--fsync", "--block-size", "4096", "-r", "src", "dst"])
     out["multi-block-fsync"] = ([D("src"), F("src/m1", 1 << 20, 1), F("src/m2", 1 << 20, 2), F("src/m3", (1 << 20) + 4097, 3)], ["--fsync", "--block-size", "4096", "-r", "src", "dst"])
+    # a sparse-looking file with runs of preallocated, never written extents (a whole extent-map page of them and more)
+    out["prealloc-extent-runs"] = ([D("src"), {"p": "src/pre", "k": "f", "size": (6 << 20) + 5, "seed": 9, "segs": [[2 << 20, 5000], [5 << 20, 70000]], "sync": True,
+                                               "falloc": [[i * 16384, 4096] for i in range(40)] + [[(3 << 20) + i * 8192, 4096] for i in range(70)]},
+                                    F("src/plain", 100, 10)], ["--block-size", "64KB", "-r", "src", "dst"])
     out["noclobber-collision"] = ([D("src")] + [F("src/f%d" % i, 100, i + 1) for i in range(30)] + [D("dst"), D("dst/src"), F("dst/src/f29", 5, 99)],
                                   ["-n", "-r", "src", "dst"])
     out["block-device"] = ([D("src")] + [F("src/f%d" % i, 100, i + 1) for i in range(20)] + [{"p": "src/zblk", "k": "blk", "rdev": [7, 99]}], ["-r", "src", "dst"])
